@@ -13,7 +13,7 @@ def collect_patterns(md=None):
     # plugin modules are imported lazily by mistune (`import_plugin`): load them all so that their module-level
     # patterns are collected whatever configuration was built before
     import importlib
-    for _p in ("abbr", "def_list", "footnotes", "table", "task_lists"):
+    for _p in ("abbr", "def_list", "footnotes", "table", "task_lists", "ruby", "spoiler"):
         importlib.import_module("mistune.plugins." + _p)
     pats = {}
     for name, mod in sorted(sys.modules.items()):
